@@ -74,13 +74,26 @@ def run(cx: Cx):
         check_pure(cx, fn.qualname)
         # environment fields read
         reads = set()
-        for n in ast.walk(fn.node):
-            if isinstance(n, ast.Attribute) and isinstance(n.ctx, ast.Load):
-                bt = cx.ti.expr_type(n.value, fn)
-                if bt and bt[0] == 'inst' and prog.is_subclass(bt[1], env):
-                    ow = cx.ti.field_owner(bt[1], n.attr)
-                    if ow is not None and ow == env:
-                        reads.add(n.attr)
+        # the observer and the private helpers it was split into
+        group = [fn]
+        seen_q = {fn.qualname}
+        stack = [cx.effects.key(fn)]
+        while stack:
+            k = stack.pop()
+            for c in cx.effects.callees.get(k, ()):
+                nm = c.split('#')[0].rsplit('.', 1)[-1]
+                if nm.startswith('_') and not nm.startswith('__') and c not in seen_q and c in prog.functions:
+                    seen_q.add(c)
+                    group.append(prog.functions[c])
+                    stack.append(c)
+        for g in group:
+            for n in ast.walk(g.node):
+                if isinstance(n, ast.Attribute) and isinstance(n.ctx, ast.Load):
+                    bt = cx.ti.expr_type(n.value, g)
+                    if bt and bt[0] == 'inst' and prog.is_subclass(bt[1], env):
+                        ow = cx.ti.field_owner(bt[1], n.attr)
+                        if ow is not None and ow == env:
+                            reads.add(n.attr)
         if reads <= {'agents'} and reads:
             cx.ok('R-PURE', f"{name} reads only Environment.agents", where=cx.where(fn), function=fn.qualname)
         elif not reads:
